@@ -237,6 +237,10 @@ ADV_LINES = [
     "A", "A(x)", "A(x, y=5) ^tag", "A(x ^t", "A() ^t", "A(x)y", "A ( x )", "A(x, y=(1, 2))",
     "x", "x, y", "x, y=5", "x=1, y", "1x", "x y", "x,,y", "x, x", "if", "x=", "=1", "x==1", "x, y=f(a, b)", "x, y=[1,2]", " ", ",", "x,)", "a, b=)(,c",
     "None", "_", "x=a=b", "x-y", "x, True",
+    # fix F07d: a parameter named like a positional marker arg_<digits> is reserved; near misses are not
+    "arg_0", "x, arg_1", "arg_12=5", "x, arg_0=5", "arg_0, arg_0", "arg_x", "arg", "my_arg_0", "arg_0x", "arg_", "arg_0 = 1", " arg_3 ",
+    "x=1, arg_2", "if, arg_0", "arg_0, if", "arg_007", "x, arg_00=1, x", "x, x, arg_0", "Arg_0", "arg__0", "arg_0_", "_arg_0", "arg_1a, arg_b1",
+    "arg_-1", "arg_ 0", "arg_0,", "A(arg_0)", "A(x, arg_1=2) ^tag", "A(arg_x, arg)",
     "Start", "My_Passage.1", "1abc", "a b", "a-b", "a$b", "", " ", "_x", ".a", "a.", "a\tb", "a;b",
     "-> T", "->T", "->", "-> ", "->  T(x)", "-> T U",
 ]
@@ -861,7 +865,55 @@ def pinned_inputs():
         ("call-body-not-a-call:choice", ":: A\n+ [go] -> T(\"(\") + (\")\")\n:: T(x)\nhi"),
         ("legacy-if-without-close", ":: A\n<<if x\nt\n<<endif>>"),
         ("input-type-attribute-in-block", ":: Start\n@if True:\n@input type=\"x\" name=\"n\"\n@endif"),
-    ] + surface_fix_inputs()
+    ] + surface_fix_inputs() + call_rule_fix_inputs()
+
+
+def call_rule_fix_inputs():
+    """Shapes touched by the fixes F07d (a parameter named arg_<digits> is refused by parse_passage_params) and F07e (a call
+    that repeats a keyword is refused by _validate_single_call as malformed arguments): the minimal stories of the two
+    patches and their neighbours (near-miss names, the order of the new checks among the old ones, every kind of call
+    site), compared with the model on every run."""
+    out = []
+
+    def story(hdr, call="T(1)", body="T text"):
+        return "\n".join([":: Start", "hi", "+ [Go] -> " + call, "", ":: " + hdr, body])
+
+    out.append(("F07d:patch-minimal", story("T(a, arg_0=5)", "T(1)", "T {a} {arg_0}")))
+    out.append(("F07d:patch-minimal-keyword", story("T(a, arg_0)", "T(arg_0=1, a=2)", "T {a} {arg_0}")))
+    for nm in ["arg_0", "arg_1", "arg_12", "arg_007", "arg_99999999999999999999"]:
+        out.append((f"F07d:only:{nm}", story(f"T({nm})")))
+        out.append((f"F07d:default:{nm}", story(f"T(x, {nm}=2)")))
+        out.append((f"F07d:first:{nm}", story(f"T({nm}, y, z=3)", "T(1, 2)")))
+    for nm in ["arg_x", "arg", "my_arg_0", "arg_0x", "arg_", "_arg_0", "Arg_0", "ARG_1", "arg__0", "arg_0_", "arg0", "args_0"]:
+        out.append((f"F07d:near-miss:{nm}", story(f"T({nm})", f"T({nm}=1)", "T {" + nm + "}")))
+        out.append((f"F07d:near-miss-default:{nm}", story(f"T(x, {nm}=2)", "T(1)", "T {x} {" + nm + "}")))
+    # the order of the checks: required-after-optional, not-an-identifier, keyword, reserved, duplicate
+    for sig in ["x=1, arg_2", "arg_0, arg_0", "x, x, arg_0", "if, arg_0", "arg_0, if", "arg_0, 1x", "1x, arg_0", "arg_0=1, y", "y=1, arg_0=2, y=3",
+                "arg_0 = 1", " arg_3 ", "arg_ 0", "arg_-1", "arg_0,", ",arg_0", "x, (arg_0)"]:
+        out.append(("F07d:order:" + sig, story(f"T({sig})")))
+    out.append(("F07d:uncalled", ":: Start\nhi\n+ [Go] -> Start\n\n:: T(arg_0)\nnobody calls this"))
+    out.append(("F07d:initial-passage", ":: Room(arg_0=1)\nRoom {arg_0}\n+ [Go] -> Room"))
+    out.append(("F07d:header-with-tags", story("T(arg_0) ^tag ^k:v")))
+    out.append(("F07d:header-with-comment", story("T(arg_0) // note")))
+    out.append(("F07d:redefined-later", story("T(arg_0)") + "\n\n:: T(x)\nsecond definition"))
+    out.append(("F07d:name-not-a-parameter", ":: Start\n~ arg_0 = 1\n{arg_0}\n+ [Go] -> arg_0\n\n:: arg_0\nA passage may be called arg_0."))
+
+    def call_story(call_line, sig="T(a, b=2)"):
+        return "\n".join([":: Start", "~ n = 1", "hi"] + call_line + ["", ":: " + sig, "T {a}"])
+
+    out.append(("F07e:patch-minimal", ":: Start\nhi\n+ [Go] -> T(a=1, a=2)\n\n:: T(a)\nT {a}"))
+    for args in ["a=1, a=2", "a=1, a=1", "a=1, b=2, a=3", "b=1, b=2", "1, b=2, b=3", "a=1, b=2, b=3, a=4", "a=1,a=2", "a = 1 , a = 2",
+                 "a=\"x, y\", a=2", "a=f(a=1, a=2)", "a=1, a=2, zz=3", "zz=1, zz=2", "1, 2, 3, b=1, b=2", "1, a=2, a=3", "**d, **e", "*x, a=1, a=2",
+                 "a=1, **d, a=2", "a=1, a=2,", "a=1, a=", "a=1 a=2"]:
+        for site, mk in [("choice", lambda c: ["+ [Go] -> " + c]), ("jump", lambda c: ["-> " + c]),
+                         ("choice-in-if", lambda c: ["@if n:", "    + [Go] -> " + c, "@endif"]),
+                         ("jump-in-for", lambda c: ["@for i in [1]:", "    -> " + c, "@endfor"])]:
+            out.append((f"F07e:{site}:{args}", call_story(mk(f"T({args})"))))
+    out.append(("F07e:parameterless-target", call_story(["+ [Go] -> T(a=1, a=2)"], "T")))
+    out.append(("F07e:unknown-target", call_story(["+ [Go] -> U(a=1, a=2)"])))
+    out.append(("F07e:join-choice", ":: Start\nhi\n+ [Wait] -> @join(a=1, a=2)\n    inside\n@join\nafter"))
+    out.append(("F07e:one-parameter", call_story(["+ [Go] -> T(a=1, a=2)"], "T(a=0)")))
+    return [("call-rule-fix:" + name.split(":")[0], text) for name, text in out]       # two families in the evidence
 
 
 def surface_fix_inputs():
@@ -1569,7 +1621,7 @@ def run(tier: str, seed: int) -> int:
         "below / at / above the caps and far above (600, 1500, 3000)"))
     dist["call_shapes"] = dict(call_ev, family=(
         "target with 0..3 parameters (10 signatures, with and without defaults) x argument shapes (no parentheses, empty, "
-        "1..n+2 positional, keywords: all / reversed / partial / unknown / repeated / clashing with a positional / before a "
+        "1..n+2 positional, keywords: all / reversed / partial / unknown / repeated (refused since fix F07e) / clashing with a positional / before a "
         "positional, *args, **kwargs, 20 malformed texts) x 18 call sites (choice, jump, in @if/@elif/@else/@for/<<if>>, "
         "nested two deep, beside a join choice, after @join; a `->` line inside a join block, which is text) in an otherwise "
         "valid story; plus calls to @join"))
